@@ -143,7 +143,8 @@ func TestC08FuzzCorpus(t *testing.T) {
 // FuzzRequest is the native fuzz target (thorough tier): any byte string as a request.
 // A failing input is saved as a replay file by the recorder before the target fails.
 func FuzzRequest(f *testing.F) {
-	for _, s := range seedCorpus(1) {
+	// every third harvested request: gathering baseline coverage costs about 0.1 s per seed
+	for _, s := range seedCorpus(3) {
 		f.Add(s)
 	}
 	f.Fuzz(func(t *testing.T, s string) {
